@@ -1,7 +1,7 @@
 //verif:pkg pkg/cafs
 //verif:use store,cafshelp
-//verif:assume real-leaf-size harness: the store is built by cafs.New itself (its 64 B..5 MiB guard included) with the minimum permitted leaf size 64; content lengths at the boundaries {0, 1, 63, 64, 65, 127, 128, 129}; the bytes at offsets 0, 63, 64, 127, 128 are symbolic, the others a fixed pattern
-//verif:cover VerifC01RealLeaf empty exact-one-leaf one-past-leaf two-leaves-plus-one one-big-write chunked
+//verif:assume real-leaf-size harness: the store is built by cafs.New itself (its 64 B..5 MiB guard included) with the minimum permitted leaf size 64; content lengths at the boundaries {0, 1, 63, 64, 65, 127, 128, 129}; the bytes at offsets 0, 63, 64, 127, 128 are symbolic, the others a fixed pattern; optionally the store already holds the objects of the same content with one of them (any one) emptied, as an interrupted upload leaves them
+//verif:cover VerifC01RealLeaf empty exact-one-leaf one-past-leaf two-leaves-plus-one one-big-write chunked empty-leftover-object
 package cafs
 
 import (
@@ -50,6 +50,17 @@ func VerifC01RealLeaf() {
 		src = &vChunkSrc{b: content, sizes: []int{[]int{1, 63, 64, 65}[vChoose("chunk", 4)], 1000}}
 	}
 	ctx := context.Background()
+	// the leftover of an earlier, interrupted upload of the same content: one of its objects exists but is empty
+	if victim := vChoose("emptyLeftover", 5); victim > 0 {
+		fs0, err := New(LeafSize(64), Backend(store), Logger(zap.NewNop()))
+		vAssert(err == nil, "new")
+		_, err = fs0.Put(ctx, bytes.NewReader(content))
+		vAssert(err == nil, "put-no-error")
+		if victim-1 < len(store.keys) {
+			vCover("empty-leftover-object")
+			store.data[store.keys[victim-1]] = []byte{}
+		}
+	}
 	res, err := fs.Put(ctx, src)
 	vAssert(err == nil, "put-no-error")
 	vAssert(res.Written == int64(n), "written-size")
